@@ -146,3 +146,112 @@ func init() {
 		return x.readStream(st, rd, args[0], cc.Args[0].Type())
 	}
 }
+
+// ---------------------------------------------------------------------------
+// hashing and signatures (crypto predicates are uninterpreted)
+
+func cryptoPrelude() string {
+	return `
+(declare-fun g_hash (Int g_SeqI) g_SeqI)
+(declare-fun g_hashsize (Int) Int)
+(declare-fun g_sigvalid (Int Int g_SeqI g_SeqI) Bool)
+(declare-fun g_pubkey (Int) Int)
+(assert (= (g_hashsize 5) 32))
+`
+}
+
+func cryptoPreludeQ() string {
+	return `
+(assert (forall ((a Int) (s g_SeqI)) (! (and (g_isbytes (g_hash a s)) (= (g_SeqI_len (g_hash a s)) (g_hashsize a))) :pattern ((g_hash a s)))))
+(assert (forall ((a Int)) (! (and (<= 0 (g_hashsize a)) (<= (g_hashsize a) 64)) :pattern ((g_hashsize a)))))
+`
+}
+
+func init() {
+	ext("(crypto.Hash).New", "crypto.Hash.New: a fresh non-nil hash state with empty input (panics only for an unlinked hash function: assumed linked)",
+		func(x *Exec, st *State, fr *Frame, cc *ssa.CallCommon, args []Val, instr ssa.Instruction) []Outcome {
+			alg := x.toTV(st, args[0], types.Typ[types.Uint]).E
+			id := st.allocRef()
+			iv := IfaceV{Sym: id, Static: cc.Signature().Results().At(0).Type()}
+			st.ghost["out:"+id] = TV{SSeqI, sEmpty(SSeqI)}
+			st.ghost["memwriter:"+id] = TV{SBool, "true"}
+			st.ghost["hashalg:"+id] = TV{SInt, alg}
+			return one(st, iv)
+		})
+	ifaceMethods["Sum"] = func(x *Exec, st *State, fr *Frame, cc *ssa.CallCommon, iv IfaceV, args []Val, instr ssa.Instruction) []Outcome {
+		in, ok := st.ghost["out:"+iv.Sym]
+		alg, ok2 := st.ghost["hashalg:"+iv.Sym]
+		if !ok || !ok2 || len(args) != 1 {
+			return nil
+		}
+		_, pre := x.seqOf(st, args[0], cc.Args[0].Type())
+		h := app("g_hash", alg.(TV).E, in.(TV).E)
+		st.assume(tAnd(app("g_isbytes", h), tEq(sLen(SSeqI, h), app("g_hashsize", alg.(TV).E))))
+		if pre == sEmpty(SSeqI) {
+			return one(st, TV{SSeqI, h})
+		}
+		return one(st, TV{SSeqI, sApp(SSeqI, pre, h)})
+	}
+	ifaceMethods["Size"] = func(x *Exec, st *State, fr *Frame, cc *ssa.CallCommon, iv IfaceV, args []Val, instr ssa.Instruction) []Outcome {
+		if alg, ok := st.ghost["hashalg:"+iv.Sym]; ok {
+			return one(st, TV{SInt, app("g_hashsize", alg.(TV).E)})
+		}
+		if cc.Signature().Results().Len() == 1 {
+			if _, isInt := intRangeOf(cc.Signature().Results().At(0).Type()); isInt {
+				x.w.Decl("(declare-fun g_size (Int) Int)")
+				v := app("g_size", iv.Sym)
+				r, _ := intRangeOf(cc.Signature().Results().At(0).Type())
+				st.assume(r.inRange(v))
+				return one(st, TV{SInt, v})
+			}
+		}
+		return nil
+	}
+	ifaceMethods["Write"] = func(x *Exec, st *State, fr *Frame, cc *ssa.CallCommon, iv IfaceV, args []Val, instr ssa.Instruction) []Outcome {
+		w, sym := x.writerOf(st, iv)
+		if w == nil || len(args) != 1 {
+			return nil
+		}
+		_, s := x.seqOf(st, args[0], cc.Args[0].Type())
+		var outs []Outcome
+		if st.ghost["memwriter:"+sym] == nil {
+			e := st.fork()
+			n := e.fresh("wn", SInt)
+			e.assume(tAnd(tCmp("<=", "0", n), tCmp("<=", n, sLen(SSeqI, s))))
+			w.set(e, sApp(SSeqI, w.get(e), sSl(SSeqI, s, "0", n)))
+			outs = append(outs, Outcome{e, TupleV{TV{SInt, n}, x.freshErr(e, "werr")}})
+		}
+		w.set(st, sApp(SSeqI, w.get(st), s))
+		outs = append(outs, Outcome{st, TupleV{TV{SInt, sLen(SSeqI, s)}, nilErr()}})
+		return outs
+	}
+	ext("(*crypto/x509.Certificate).CheckSignature", "Certificate.CheckSignature(algo, signed, sig): nil iff sig is a valid signature of signed under the certificate's public key with that algorithm (uninterpreted predicate sigvalid); never panics for a non-nil certificate",
+		func(x *Exec, st *State, fr *Frame, cc *ssa.CallCommon, args []Val, instr ssa.Instruction) []Outcome {
+			p, _ := args[0].(PtrV)
+			x.nilCheck(st, fr, p, instr)
+			algo := x.toTV(st, args[1], types.Typ[types.Int]).E
+			_, signed := x.seqOf(st, args[2], cc.Args[2].Type())
+			_, sig := x.seqOf(st, args[3], cc.Args[3].Type())
+			valid := app("g_sigvalid", app("g_pubkey", p.Ref), algo, signed, sig)
+			bad := st.fork()
+			bad.assume(tNot(valid))
+			st.assume(valid)
+			return []Outcome{{bad, x.freshErr(bad, "sigerr")}, {st, nilErr()}}
+		})
+	ifaceMethods["Sign"] = func(x *Exec, st *State, fr *Frame, cc *ssa.CallCommon, iv IfaceV, args []Val, instr ssa.Instruction) []Outcome {
+		if len(args) != 3 {
+			return nil
+		}
+		e := st.fork()
+		sig := x.freshBytes(st, "sig")
+		x.w.Decl("(declare-fun g_signedby (Int " + SSeqI + " " + SSeqI + ") Bool)")
+		_, digest := x.seqOf(st, args[1], cc.Args[1].Type())
+		st.assume(app("g_signedby", iv.Sym, digest, sig))
+		return []Outcome{{e, TupleV{TV{SSeqI, sEmpty(SSeqI)}, x.freshErr(e, "signerr")}}, {st, TupleV{TV{SSeqI, sig}, nilErr()}}}
+	}
+	externDoc["interface method Sign"] = "crypto.Signer.Sign: returns an error (no signature) or a signature with signedby(signer, digest, sig)"
+	externDoc["interface method Sum"] = "hash.Hash.Sum(b): b || hash(alg, everything written)"
+	externDoc["interface method Write"] = "io.Writer.Write(p): appends p (hash states and in-memory buffers never fail; other writers may write a prefix and fail)"
+	externDoc["interface method Read"] = "io.Reader.Read(p) on an in-memory stream: copies min(len(p), remaining); io.EOF iff nothing remains and len(p) > 0"
+	externDoc["interface method Size"] = "Size(): the declared size of the object (uninterpreted function of its identity)"
+}
